@@ -23,8 +23,10 @@ def selfcheck(pid, mod, repo, chk):
     for mf in sorted(glob.glob(os.path.join(VERIF, "seeded", "*", "meta.json"))):
         m = json.load(open(mf))
         cat.append(dict(name="seeded:" + m["id"], file="", expect=[m["breaks_property"]], patch=os.path.join(os.path.dirname(mf), "patch.diff")))
+    limits = json.load(open(os.path.join(VERIF, "selftest", "refactors", "LIMITS.json")))
     for pf in sorted(glob.glob(os.path.join(VERIF, "selftest", "refactors", "*.diff"))):      # behaviour-preserving rewrites written by sub-agents: silence required
-        cat.append(dict(name="refactor:" + os.path.basename(pf)[:-5], file="", expect=[], patch=pf))
+        if os.path.basename(pf)[:-5] not in limits:      # documented limits of the normal form are not replayed (DESIGN 12.5)
+            cat.append(dict(name="refactor:" + os.path.basename(pf)[:-5], file="", expect=[], patch=pf))
     known = {k["key"] for k in load_known().get("findings", [])}
     base = {o.key for o in chk.obligations if not o.ok}
     replayed = detected = silent_ok = skipped = 0
